@@ -126,6 +126,66 @@ mod verif_cms_w_obj {
         v
     }
 
+    /// DER TLV with definite length
+    fn tlv(tag: u8, content: &[u8]) -> Vec<u8> {
+        let mut v = vec![tag];
+        let n = content.len();
+        if n < 0x80 { v.push(n as u8) } else if n < 0x100 { v.extend_from_slice(&[0x81, n as u8]) }
+        else if n < 0x10000 { v.extend_from_slice(&[0x82, (n >> 8) as u8, n as u8]) }
+        else { v.extend_from_slice(&[0x83, (n >> 16) as u8, (n >> 8) as u8, n as u8]) }
+        v.extend_from_slice(content);
+        v
+    }
+    /// one attribute: SEQUENCE { OID 1.2.840.113549.1.9.<last>, SET { value } }
+    fn attr(last: u8, value: &[u8]) -> Vec<u8> {
+        let mut c = tlv(0x06, &[0x2A, 0x86, 0x48, 0x86, 0xF7, 0x0D, 0x01, 0x09, last]);
+        c.extend_from_slice(&tlv(0x31, value));
+        tlv(0x30, &c)
+    }
+    //@harness cms_w_signed_attrs W fn=SignedAttrs::take_from,SignedAttrs::take_from_signed_message,SignedAttrs::take_from_with_mode n=4000 timeout=600
+    verif_search!{ cms_w_signed_attrs; |order: [u8; 8], n: u8, strict: bool, big: u8, dlen: u8| {
+        // up to 8 attributes in any order: 0 content-type, 1 message-digest, 2 signing-time, 3 an unknown attribute;
+        // half of the inputs are the conforming shape (one each, in any order, plus unknown ones) with the digest
+        // length chosen so that the total size lands on / next to the DER length-form boundaries
+        let mut kinds: Vec<usize> = Vec::new();
+        let conforming = big % 2 == 1;
+        if conforming {
+            let perm = [[0, 1, 2], [0, 2, 1], [1, 0, 2], [1, 2, 0], [2, 0, 1], [2, 1, 0]][(order[0] % 6) as usize];
+            kinds.extend_from_slice(&perm);
+            for _ in 0..(order[1] % 3) { kinds.insert((order[2] as usize) % (kinds.len() + 1), 3) }
+        } else {
+            for k in 0..(n % 9) as usize { kinds.push((order[k] % 4) as usize) }
+        }
+        let fixed: usize = kinds.iter().map(|k| match k { 0 => 28, 1 => 17, 2 => 30, _ => 20 }).sum();
+        let targets = [126usize, 127, 128, 129, 130, 255, 256, 257];
+        let t = targets[(dlen % 8) as usize];
+        let dl = if conforming && dlen >= 128 && t >= fixed && t - fixed < 120 { t - fixed } else { (dlen % 120) as usize };
+        let digest = vec![0xAB; dl];
+        let mut content = Vec::new();
+        let mut cnt = [0usize; 4];
+        for (k, which) in kinds.iter().enumerate() {
+            let which = *which;
+            cnt[which] += 1;
+            content.extend_from_slice(&match which {
+                0 => attr(3, &tlv(0x06, &[0x2A, 0x86, 0x48, 0x86, 0xF7, 0x0D, 0x01, 0x09, 0x10, 0x01, 0x1A])),
+                1 => attr(4, &tlv(0x04, &digest)),
+                2 => attr(5, &tlv(0x17, b"190501000000Z")),
+                _ => attr(52, &tlv(0x04, &vec![7u8; if big % 16 == 0 && k == 0 { 66000 } else { 3 }])),
+            });
+        }
+        let der = tlv(0xA0, &content);
+        let r = if strict { Mode::Der.decode(&der[..], |cons| SignedAttrs::take_from(cons)) }
+                else { Mode::Der.decode(&der[..], |cons| SignedAttrs::take_from_signed_message(cons)) };
+        let want = cnt[0] == 1 && cnt[1] == 1 && cnt[2] == 1 && (cnt[3] == 0 || !strict) && content.len() <= 0xFFFF;
+        assert!(r.is_ok() == want, "accepted exactly with one each of content-type, message-digest, signing-time (unknown attributes only in the CA-protocol mode, at most 65535 octets)");
+        if let Ok((attrs, md, _ct, _t)) = r {
+            assert!(attrs.0.as_slice() == &content[..], "ALL attributes, unknown ones included, stay in the octets that are signed");
+            assert!(md.as_ref() == &digest[..], "the digest attribute value is returned");
+            let mut sig_input = tlv(0x31, &content);
+            assert!(attrs.encode_verify() == sig_input, "the signature input is the DER SET OF of the attributes");
+        }
+    }}
+
     //@harness cms_w_sigobj W fn=SignedObject::{validate_at,inspect,verify,process} n=1500 timeout=900
     verif_search!{ cms_w_sigobj; |which: u8, mode: u8, k: u8, idx: u16, bit: u8, extra: [u8; 4], edge: u8, delta: i32, crl_ok: bool| {
         let at = Time::utc(2019, 5, 1, 0, 0, 0);
